@@ -7,6 +7,7 @@ package main
 // each copy is reopened with db.DatabaseNew and read back the way Teamserver.Start does.
 
 import (
+	"sync"
 	"time"
 	"net"
 	"fmt"
@@ -305,6 +306,44 @@ func (w *c10World) line(c *Ctx, in string) {
 		w.do(c, in, func() { w.ts.DB.ListenerAdd(string(unhx(parts[1])), parts[2], string(unhx(parts[3]))) })
 	case "lrem":
 		w.do(c, in, func() { w.ts.DB.ListenerRemove(string(unhx(parts[1]))) })
+	case "burst": // burst <goroutines> <each> <seed>: agents register and check in at the same time (a teamserver of its own, its database
+		// opened exactly as the teamserver opens it); every acknowledged registration and the last metadata must be there after a restart
+		ng, _ := strconv.Atoi(parts[1])
+		each, _ := strconv.Atoi(parts[2])
+		seed, _ := strconv.ParseUint(parts[3], 10, 64)
+		saved := w.realWorld
+		bw := newRealWorld("c10b")
+		w.realWorld = bw
+		res := guardT(ms(60000), func() string {
+			var wg sync.WaitGroup
+			for g := 0; g < ng; g++ {
+				wg.Add(1)
+				go func(g int) {
+					defer wg.Done()
+					defer func() { recover() }()
+					rr := gen.New(seed + uint64(g)*7919)
+					for i := 0; i < each; i++ {
+						id := uint32(0x0b000000 + g*0x1000 + i)
+						key, iv := rr.Bytes(32), rr.Bytes(16)
+						handlers.VerifParseAgentRequest(bw.ts, initPackage(id, id, key, iv, trickyInfo(rr)), "10.0.0.7")
+						if a := bw.ts.AgentInstance(int(id)); a != nil {
+							for k := 0; k < 3; k++ {
+								b := append(append([]byte{}, key...), iv...)
+								req := uint32(0x2000 + k)
+								a.AddRequest(agent.Job{Command: agent.COMMAND_CHECKIN, RequestID: req})
+								handlers.VerifParseAgentRequest(bw.ts, demonRequest(id, key, iv, []dpkg{{cmd: agent.COMMAND_CHECKIN, req: req, body: append(b, encFields(trickyInfo(rr).fields(id))...)}}), "10.0.0.7")
+							}
+						}
+					}
+				}(g)
+			}
+			wg.Wait()
+			return "ok"
+		})
+		out := fmt.Sprintf("%s %s %s", res, w.live(), w.restored())
+		w.realWorld = saved
+		bw.close()
+		c.Emit("%s => %s mid=-", in, out)
 	case "tladd": // tladd <namehex> smb|http: a listener started through the teamserver (which persists it)
 		name := string(unhx(parts[1]))
 		w.do(c, in, func() {
@@ -373,6 +412,10 @@ func runC10(c *Ctx) {
 			} else if r.Bool() {
 				w.line(c, "tlrem "+b)
 			}
+		}
+		if r.Chance(1, 15) {
+			c.Count("burst")
+			w.line(c, fmt.Sprintf("burst %d %d %d", 2+r.Intn(7), 2+r.Intn(5), r.U64()))
 		}
 		steps := 3 + r.Intn(10)
 		for s := 0; s < steps; s++ {
